@@ -54,6 +54,8 @@ func c15WorkloadAlphabet() []wOp {
 		{Kind: "create", Strategy: "AUTO", Count: 1, Req: "bind1", Include: []string{"n1"}},
 		{Kind: "create", Strategy: "AUTO", Count: 1, Req: "bindhalf", Include: []string{"n2"}},
 		{Kind: "create", Strategy: "AUTO", Count: 1, Req: "bind1", Include: []string{"n2"}},
+		// a workload on the NUMA node that holds no NUMA memory: the sum over the workloads then has no NUMA part at all
+		{Kind: "create", Strategy: "AUTO", Count: 1, Req: "mem", Include: []string{"n2"}},
 	}
 }
 
@@ -431,7 +433,7 @@ func checkC15(t *testing.T, c *vcore.Ctx) {
 		c.HarnessError("initial cluster: %v", err)
 		return
 	}
-	c.SetRule("every (workload set, node, drift): workload sets = all histories of 0..3 real create calls from {memory-only on n1, bound 1.0 on n1, bound 0.5 on n2, bound 1.0 on n2 (NUMA)} on the cluster n1 (2 cores/200 memory), n2 (4 cores in 2 NUMA nodes/400 memory), de-duplicated modulo the symmetries of the cluster (cores of one NUMA group and the two NUMA nodes of n2 are interchangeable; the drift alphabet is closed under them); the allocator's choices follow Go map order, so every (state, create) is repeated until 12 (thorough: 20) consecutive repetitions yield no new successor class and the union is kept; " +
+	c.SetRule("every (workload set, node, drift): workload sets = all histories of 0..3 real create calls from {memory-only on n1, bound 1.0 on n1, bound 0.5 on n2, bound 1.0 on n2 (NUMA), memory-only on n2} on the cluster n1 (2 cores/200 memory), n2 (4 cores in 2 NUMA nodes/400 memory), de-duplicated modulo the symmetries of the cluster (cores of one NUMA group and the two NUMA nodes of n2 are interchangeable; the drift alphabet is closed under them); the allocator's choices follow Go map order, so every (state, create) is repeated until 12 (thorough: 20) consecutive repetitions yield no new successor class and the union is kept; " +
 		"drift = one direct edit of the usage half of the plugin's record of the node: per core +30/+100/-30/-100, core key missing, core negative; memory +30/-30/negative; per NUMA node memory +30/-30/negative, NUMA usage map missing; CPU float +0.5/-0.5/negative; all usage zeroed; every field increased; no drift; " +
 		"then real NodeResource(fix=true) and NodeResource(fix=false) on a fresh core instance in a virtual-time bubble. non-trivial = distinct (state, node, drift) whose drifted record really differs from the sum of the recorded workloads")
 	c.Assume("etcd is the in-memory model memetcd; engines are the stateful fakev engines; 'inspect failed' lines of the check are about containers and are ignored")
